@@ -4,7 +4,8 @@ C13 - particle models are dimensionally consistent with their declared units.
 Space: every `shape:*` model whose parameter table carries only length-type, SLD, angle or
 dimensionless units  x  two bases (the defaults; the "activated" base in which every non-SLD, non-angle
 parameter with default 0 is non-zero and every count-like parameter with default 1 is raised, so that
-parameters the defaults switch off take part)  x  parameter sets on each base (the base; each parameter
+parameters the defaults switch off take part)  x  every count parameter (n, n_shells, n_stacking, num_pearls,
+Nlayers, n_aggreg ...) at its smallest meaningful values (lower limit or 1, and 2)  x  parameter sets on each base (the base; each parameter
 moved to two seed-rotated non-default values; thorough: every pair)  x  1-D / 2-D (oriented models)  x  lambda in {2, 0.5, 1.3}  x
 mu in {1.7, 0.5}  x  3 q points  (+ every effective-radius mode through call_Fq).
 
@@ -52,9 +53,11 @@ LAMBDAS = [2.0, 0.5, 1.3]
 MUS = [1.7, 0.5]
 BOUNDS = {
     "quick": {"D": 1, "lambda": LAMBDAS, "mu": MUS, "q1d": [0.011, 0.07, 0.31], "dims": "1d + 2d (oriented models)",
-              "factors_per_parameter": 2, "bases": "defaults + activated (zero defaults on, counts raised)", "exponent_search": "{-2..3}^k (k<=5) or <=2 rows off the declaration"},
+              "factors_per_parameter": 2, "bases": "defaults + activated (zero defaults on, counts raised)",
+              "counts": "every count parameter at max(lower limit, 1) and 2 on both bases", "exponent_search": "{-2..3}^k (k<=5) or <=2 rows off the declaration"},
     "thorough": {"D": 2, "lambda": LAMBDAS, "mu": MUS, "q1d": [0.011, 0.07, 0.31], "dims": "1d + 2d (oriented models)",
-                 "factors_per_parameter": 2, "bases": "defaults + activated (zero defaults on, counts raised)", "exponent_search": "{-2..3}^k (k<=5) or <=2 rows off the declaration"},
+                 "factors_per_parameter": 2, "bases": "defaults + activated (zero defaults on, counts raised)",
+              "counts": "every count parameter at max(lower limit, 1) and 2 on both bases", "exponent_search": "{-2..3}^k (k<=5) or <=2 rows off the declaration"},
 }
 CASE_TIMEOUT = 600
 
@@ -163,10 +166,30 @@ def moved(ctx, info, name, which=0):
     return None
 
 
+def _is_count(u, ctl, p):
+    """a dimensionless, integer-valued count (n, n_shells, n_stacking, num_pearls, Nlayers, n_aggreg, n_steps ...):
+    vector-length controls and integer defaults >= 1 whose description calls them a number"""
+    if u == SLD_UNIT or UNIT_EXP.get(u, 1) != 0 or u in ("degrees", "degree") or p.choices:
+        return False
+    d = float(p.default)
+    return d >= 1.0 and d.is_integer() and (ctl or "number" in (p.description or "").lower())
+
+
 def _count_like(u, ctl, p):
-    """a dimensionless count whose default of 1 switches its companions off (n_stacking, n_shells, n ...)"""
-    return (u != SLD_UNIT and UNIT_EXP.get(u, 1) == 0 and u not in ("degrees", "degree") and not p.choices
-            and float(p.default) == 1.0 and (ctl or p.limits[0] >= 1.0))
+    """a count whose default of 1 switches its companions off (n_stacking, n_shells, n ...)"""
+    return _is_count(u, ctl, p) and float(p.default) == 1.0
+
+
+def small_counts(info):
+    """{call name: [smallest meaningful values]} for every count: the lower limit if finite and >= 1 else 1, and 2"""
+    out = {}
+    for rid, u, names, ctl, p in rows(info):
+        if len(names) == 1 and _is_count(u, ctl, p):
+            lo, hi = p.limits
+            first = float(lo) if (np.isfinite(lo) and lo >= 1.0) else 1.0
+            vals = [v for v in (first, 2.0) if lo <= v <= hi]
+            out[names[0]] = sorted(set(vals))
+    return out
 
 
 def activation(ctx, info):
@@ -229,6 +252,11 @@ def cases(ctx):
             if not ctx.quick:
                 for a, b in itertools.combinations(names, 2):
                     out.append({"model": m, "dim": dim, "vary": [a, b]})
+            # every count at its smallest meaningful values (a lone pearl, a single layer ...), both tiers
+            for n in sorted(small_counts(info)):
+                out.append({"model": m, "dim": dim, "vary": [n], "small": True})
+                if act:
+                    out.append({"model": m, "dim": dim, "vary": [n], "small": True, "base": "activated"})
             if act:
                 # second base: zero defaults switched on, counts raised; single moves on top of it in BOTH tiers
                 out.append({"model": m, "dim": dim, "vary": [], "base": "activated"})
@@ -309,7 +337,12 @@ def run_case(case, ctx):
         return pars
     # parameter sets of this case
     sets = []
-    if not case["vary"]:
+    if case.get("small"):
+        for v in small_counts(info)[case["vary"][0]]:
+            pars = base_set()
+            pars[case["vary"][0]] = v
+            sets.append(pars)
+    elif not case["vary"]:
         sets.append(base_set())
     else:
         for combo in itertools.product(range(nfac), repeat=len(case["vary"])):
@@ -351,6 +384,11 @@ def run_case(case, ctx):
                 s = bool(np.any(np.abs(Ib - I0) > 1e-6 * np.abs(I0 - bg)))
             sens[rid] = s
             r.branch(("sens:" if s else "insens:") + case["model"] + "." + rid)
+        if case.get("small"):
+            r.branch("count-small")
+            r.branch("count-small:%s.%s" % (case["model"], case["vary"][0]))
+            if pars[case["vary"][0]] == 1.0:
+                r.branch("count-at-one")
         if activated:
             r.branch("activated-base")
             by_name = {n: (rid, ctl) for rid, u, names, ctl, p in rows(info) for n in names}
@@ -712,6 +750,14 @@ def finish(ctx, report):
     report.branches["activated-parameters-influencing-I"] = len(asens)
     report.coverage["activated_parameters_influencing_I"] = sorted(asens)
     report.coverage["activated_parameters_never_influencing_I"] = sorted(ainsens - asens)
+    counts = sorted(k[12:] for k in report.branches if k.startswith("count-small:"))
+    for k in [k for k in report.branches if k.startswith("count-small:")]:
+        del report.branches[k]
+    report.coverage["count_parameters_at_smallest_values"] = counts
+    report.branches["count-parameters"] = len(counts)
+    report.require("count-small", 20, "count parameters at their smallest meaningful values")
+    report.require("count-at-one", 8, "count parameters equal to one")
+    report.require("count-parameters", 8, "distinct count parameters moved to their smallest values")
     report.require("activated-base", 50, "parameter sets on the activated base (zero defaults on, counts raised)")
     report.require("activated-parameters-influencing-I", 4, "activated parameters that influence I")
     report.branches["rescaled-parameters-exercised"] = len(sens)
